@@ -15,11 +15,15 @@
 EXTENDS Integers, Sequences, FiniteSets, KeyCodes, Report, IOUtils
 
 EV == ndJsonDeserialize(IOEnv.EVT)        \* rows of form "event"
-PL == ndJsonDeserialize(IOEnv.TABLE)      \* the layout table (first 2480 rows = plain layouts)
+(* the installed layout object is AnyLayout(L): the reference is the table of THAT object (rows of
+   form "any", the second block of 2480 rows), so that a dispatch slip inside AnyLayout is C17's
+   business and not reported here a second time *)
+PLall == ndJsonDeserialize(IOEnv.TABLE)
 N == 2480
-ASSUME Shape == Len(EV) = N /\ Len(PL) >= N
+PL == [i \in 1..N |-> PLall[N + i]]
+ASSUME Shape == Len(EV) = N /\ Len(PLall) >= 2 * N
                 /\ \A i \in 1..N : EV[i].k = PL[i].k /\ EV[i].h = PL[i].h /\ EV[i].layout = PL[i].layout
-                                   /\ EV[i].form = "event" /\ PL[i].form = "plain"
+                                   /\ EV[i].form = "event" /\ PL[i].form = "any"
 
 VARIABLES lo, hi
 vars == <<lo, hi>>
